@@ -85,12 +85,18 @@ Proof. intros Hc H. rewrite <- (run_sub_case_bb_refines m ibl slots initial ops 
 Lemma payload_from_len k : forall c i, length (payload_from k i c) = c.
 Proof. induction c; intros i; cbn [payload_from length]; [reflexivity|]. rewrite IHc. reflexivity. Qed.
 
+Lemma spec_grow_eq c : spec_grow c = grow_spec c.
+Proof. unfold spec_grow, SPEC_MAX. rewrite grow_spec_eq. reflexivity. Qed.
+
+Lemma spec_consts : SPEC_MAX = BB_MAX_CAPACITY /\ SPEC_MIN = BB_MIN_CAPACITY /\ SPEC_SAFE = BB_SAFE.
+Proof. repeat split; reflexivity. Qed.
+
 Lemma first_cap_prescribed : forall fuel c r c', prescribed c r c' ->
   (forall k, (1 <= k)%nat -> c' = grow_iter k c -> (forall j, (1 <= j < k)%nat -> grow_iter j c < r) -> (k <= fuel)%nat) ->
   first_cap fuel c r = c'.
 Proof. induction fuel as [|f IH]; intros c r c' (k & Hk & He & Hr & Hmin) Hf.
   - specialize (Hf k Hk He Hmin). lia.
-  - cbn [first_cap]. destruct (r <=? grow_spec c) eqn:E.
+  - cbn [first_cap]. rewrite spec_grow_eq. destruct (r <=? grow_spec c) eqn:E.
     + destruct k as [|[|k]]; [lia|exact (eq_sym He)|]. specialize (Hmin 1%nat ltac:(lia)). cbn [grow_iter] in Hmin. lia.
     + destruct k as [|[|k]]; [lia|cbn [grow_iter] in He; lia|].
       apply IH.
@@ -123,6 +129,7 @@ Proof. intros Hrel. destruct st as [[[cap limit] content]|]; [|destruct (bstep m
   destruct Hrel as (Hok & <- & <- & <-). pose proof Hok as ((Hl1 & Hl2) & Hc1 & Hc2). bbc.
   destruct o; cbn [bstep judge_bop bb_obs].
   - (* append *)
+    change SPEC_SAFE with BB_SAFE.
     destruct ((0 <=? len) && (bb_limit b + len <=? BB_SAFE + 1)) eqn:Eg.
     2:{ destruct (bb_append m b (payload k len)); split; try reflexivity; exact I. }
     assert (Hlen : Z.of_nat (length (payload k len)) = len).
@@ -155,7 +162,7 @@ Lemma new_cap_shape m initial b : initial_judged initial = true -> bb_new m init
 Proof. intros Hj H. unfold initial_judged, two63 in Hj. pose proof (new_spec m initial b H) as (_ & _ & _ & Hmin & Hsmall). bbc.
   unfold bb_new, next_pow2_i64, sub64, add64, chk64 in H.
   assert (E1 : in_i64 (initial - 1) = true) by (unfold in_i64, two63; lia). rewrite E1 in H. cbn [bind] in H.
-  unfold new_cap_ok. rewrite Hmin0.
+  unfold new_cap_ok, SPEC_MIN.
   (* p = fill_below (initial - 1) + 1 is 0 or a power of two <= 2^62 *)
   assert (Hp : fill_below (initial - 1) + 1 = 0 \/ exists k, 0 <= k <= 62 /\ fill_below (initial - 1) + 1 = 2 ^ k).
   { unfold fill_below. destruct (initial - 1 <? 0) eqn:A; [left; reflexivity|]. right.
@@ -210,7 +217,8 @@ Proof. unfold holds_bb_case, run_bb_case. destruct (initial_judged initial) eqn:
 
 (* ---- find_suitable_capacity ---- *)
 Theorem find_judged m cap req : holds_find cap req (find_suitable_capacity m cap req) = true.
-Proof. unfold holds_find. destruct ((2 <=? cap) && (cap <=? BB_MAX_CAPACITY) && (cap <? req)) eqn:Eg; cbn [negb]; [|reflexivity].
+Proof. unfold holds_find. change SPEC_MAX with BB_MAX_CAPACITY. change SPEC_SAFE with BB_SAFE.
+  destruct ((2 <=? cap) && (cap <=? BB_MAX_CAPACITY) && (cap <? req)) eqn:Eg; cbn [negb]; [|reflexivity].
   assert (Hc : 2 <= cap <= BB_MAX_CAPACITY) by lia. assert (Hlt : cap < req) by lia. bbc.
   assert (Hdbg : forall P : outcome Z -> bool, P Panic = true -> P (find_suitable_capacity Release cap req) = true ->
                  P (find_suitable_capacity m cap req) = true).
